@@ -105,6 +105,8 @@ STRUCTS = {
     'a_xw-b_x': [('a', ['x', 'w']), ('b', ['x'])],
     'a_wx-b_w': [('a', ['w', 'x']), ('b', ['w'])],
     'a_xy-b_xw': [('a', ['x', 'y']), ('b', ['x', 'w'])],
+    # a variable whose key is the name of a dimension it does not have itself
+    'x_y-b_xy': [('x', ['y']), ('b', ['x', 'y'])],
 }
 
 
@@ -489,6 +491,8 @@ def templates():
                 add('relabel-%s-%s-%s' % (sname, dim, how), 'relabel', cost=0.3, struct=sname, how=how, dim=dim)
             add('wrongsize-%s-%s' % (sname, dim), 'wrong_size', cost=0.2, struct=sname, dim=dim)
             for how in ('setitem-label', 'ix', 'values', 'fill', 'put', 'imul'):
+                if dim in keys:
+                    continue          # ds[dim] is the variable of that name, not the dimension
                 if sname in ('a_x-b_yx', 'a_xy-b_y-c_0', 'a_x') or how == 'setitem-label':
                     add('extract-dim-%s-%s-%s' % (sname, dim, how), 'extract_dim', cost=0.3, struct=sname, dim=dim, how=how)
         if len(dims) >= 2:
